@@ -215,7 +215,7 @@ def seq_opt_by_walks(rp):
 def small_crosscheck(ctx, step):
     """The generated call list of examples/small.py against what the real builders do: same nodes, arcs, routes (in order)
     with the costs the Coq model computes, same default grid / high cost / sequence sizes; the exhaustive minimum of the real
-    default-penalty path QUBO is 5 (attained by the partition of C08_small_gen_partition_5)."""
+    default-penalty path QUBO is the optimum proved in C08_small_gen_optimum (5)."""
     import itertools
     import numpy as np
     try:
@@ -258,8 +258,8 @@ def small_crosscheck(ctx, step):
         best = min(float(np.array(x) @ Qd @ np.array(x) + k) for x in itertools.product((0, 1), repeat=n))
         ctx.count(evaluations=2 ** n)
         if best != 5.0:
-            problems.append(f"minimum of the default-penalty QUBO of examples.small.get_path_based() is {best}, the value test_small.py hard-codes and the "
-                            f"partition D-1-2-3-D attains (C08_small_gen_partition_5) is 5")
+            problems.append(f"minimum of the default-penalty QUBO of examples.small.get_path_based() is {best}, the optimum proved for the "
+                            f"generated call list (C08_small_gen_optimum; the value test_small.py hard-codes) is 5")
     ctx.cov["small_crosscheck"] = {"nodes": want_nodes, "arcs": len(want_arcs), "routes": len(want_routes), "problems": problems}
     for msg in problems:
         ctx.violation("oracle/small-example", "examples/small.py: " + msg, {"python": "props.c08.small_crosscheck"}, True)
@@ -268,7 +268,7 @@ def small_crosscheck(ctx, step):
 def run(ctx):
     ctx.prove()
     # model regenerated from the source: examples/small.py (the instance of test_small.py) as a call list; its pool is
-    # proved complete, so the path-based C08 theorems hold for it without hypotheses
+    # proved complete, so the path-based C08 theorems hold for it without hypotheses, and its optimum is proved to be 5
     from props import genreg
     small_step = genreg.steps(ctx, ("small",))[0]
     small_crosscheck(ctx, small_step)
